@@ -353,17 +353,23 @@ where
                 self.session.deallocate_link(link_name);
             }
             SessionControl::Disposition(disposition) => {
-                let disposition = self.session.on_outgoing_disposition(disposition)?;
-                self.outgoing
-                    .send(disposition)
-                    .await
-                    // The receiving half must have dropped, and thus the `Connection`
-                    // event loop has stopped. It should be treated as an io error
-                    .map_err(|_| {
-                        SessionInnerError::ConnectionStopped(connection_stop_reason_or_closed(
-                            self.session.connection_stop_reason(),
-                        ))
-                    })?;
+                // Nothing may follow the local End on this channel
+                if !matches!(
+                    self.session.local_state(),
+                    SessionState::EndSent | SessionState::Discarding
+                ) {
+                    let disposition = self.session.on_outgoing_disposition(disposition)?;
+                    self.outgoing
+                        .send(disposition)
+                        .await
+                        // The receiving half must have dropped, and thus the `Connection`
+                        // event loop has stopped. It should be treated as an io error
+                        .map_err(|_| {
+                            SessionInnerError::ConnectionStopped(connection_stop_reason_or_closed(
+                                self.session.connection_stop_reason(),
+                            ))
+                        })?;
+                }
             }
             SessionControl::CloseConnectionWithError((condition, description)) => {
                 let error = definitions::Error::new(condition, description, None);
